@@ -83,7 +83,51 @@ def render_inferred(cid: int, stmts: list[tuple[tuple[str, ...], str]], method: 
 
 
 def reachable(path) -> bool:
-    return not any(c in IGNORED_CTX for c in path)
+    return not any(c in IGNORED_CTX or c == "dead" for c in path)
+
+
+SLOT_FORMS = ["none", "plain", "cond"]
+SLOT_RV = {"body": "1", "except": '"s"', "else": "1.5", "finally": "True"}
+
+
+def enumerate_shared(tier: str):
+    """Return statements in several clauses of ONE compound statement.  Yield (body lines, stmts, label); an unreachable
+    return (everything else when 'finally' returns unconditionally, 'else' after an unconditional return in the body)
+    carries the path marker 'dead': it need not be covered (covering it is allowed)."""
+
+    def slot(form: str, rv: str) -> list[str]:
+        return {"none": ["pass"], "plain": [f"return {rv}"], "cond": ["if c:", f"    return {rv}"]}[form]
+
+    ind = lambda ls: ["    " + ln for ln in ls]  # noqa: E731
+    for fb, fx, fe, ff in itertools.product(SLOT_FORMS, repeat=4):
+        forms = {"body": fb, "except": fx, "else": fe, "finally": ff}
+        if sum(f != "none" for f in forms.values()) < 2:
+            continue
+        lines = ["try:", "    xs.append(c)", *ind(slot(fb, SLOT_RV["body"])), "except Exception:", *ind(slot(fx, SLOT_RV["except"]))]
+        if fe != "none":
+            lines += ["else:", *ind(slot(fe, SLOT_RV["else"]))]
+        if ff != "none":
+            lines += ["finally:", *ind(slot(ff, SLOT_RV["finally"]))]
+        stmts = []
+        for name, f in forms.items():
+            if f == "none":
+                continue
+            dead = (ff == "plain" and name != "finally") or (name == "else" and fb == "plain")
+            stmts.append(((f"try.{name}.{f}", *(("dead",) if dead else ())), SLOT_RV[name]))
+        yield lines, stmts, "sh:try:" + ",".join(f"{k[0]}={v}" for k, v in forms.items())
+    two = [("if", ["if c:", "    return 1", "else:", '    return "s"']), ("elif", ["if c:", "    return 1", "elif xs:", '    return "s"', "else:", "    return 1.5"]),
+           ("for", ["for _i in xs:", "    return 1", "else:", '    return "s"']), ("while", ["while c:", "    return 1", "else:", '    return "s"']),
+           ("match", ["match c:", "    case 1:", "        return 1", "    case 2:", '        return "s"', "    case _:", "        return 1.5"]),
+           ("with-try", ["with open('f') as _fh:", "    try:", "        return 1", "    finally:", "        if c:", '            return "s"'])]
+    for name, lines in two:
+        rvs = [ln.strip()[7:] for ln in lines if ln.strip().startswith("return ")]
+        yield lines, [((f"{name}.{i}",), rv) for i, rv in enumerate(rvs)], f"sh:{name}"
+
+
+def render_shared(cid: int, lines: list[str], method: bool) -> str:
+    if method:
+        return f"class C{cid}:\n    def f{cid}(self_like, c, xs):\n" + "\n".join("        " + ln for ln in lines) + "\n"
+    return f"def f{cid}(c, xs, self_like=None):\n" + "\n".join("    " + ln for ln in lines) + "\n"
 
 
 def enumerate_inferred(tier: str):
@@ -161,6 +205,10 @@ def run(rep: Report, tier: str, seed: int) -> None:
         for method in ((False,) if tier == "quick" and not label.startswith("1") else (False, True)):
             cases.append(Case(cid, render_inferred(cid, stmts, method), ("inf", stmts, risky, method), (), label + (":m" if method else "")))
             cid += 1
+    for lines, stmts, label in enumerate_shared(tier):
+        for method in (False, True):
+            cases.append(Case(cid, render_shared(cid, lines, method), ("inf", stmts, False, method), (), label + (":m" if method else "")))
+            cid += 1
     n_inf = len(cases)
     # ---- annotated part (plaintext: names are result_i)
     ann_cases: list[Case] = []
@@ -196,6 +244,7 @@ def run(rep: Report, tier: str, seed: int) -> None:
             cid += 1
     rep.rule = (
         "inferred: one return statement under every statement context (16 contexts, depth<=%s) x 11 typed + 12 untyped return expressions; two return statements at depth<=1 over %d typed letters%s;"
+        " return statements in 2..4 clauses of one try statement (each clause: none / return / conditional return; 72 shapes) and in the branches of one if / for-else / while-else / match;"
         " functions and methods. annotated: 12 annotation terms alone and as tuple[...] of 1..3; numpydoc result sections with 0..3 entries, each named or unnamed, against 1..3 results."
         " distinct = distinct case label" % ("1 + 8 depth-2 paths" if tier == "quick" else "2 (complete)", len(RV_QUICK2) if tier == "quick" else len(RV_TYPED), "" if tier == "quick" else "; three return statements over top/if/else x 8 letters")
     )
